@@ -196,8 +196,8 @@ Lemma step_emits_spec : forall ss e bs r, emitted (step ss e bs) r -> rec_spec r
 Proof.
   intros ss e bs r. unfold session_step.
   destruct (do_register ss e) as [ss1 ids].
-  pose proof (read_iter_ok maxbuf cfg (ss_st ss1) (mkEnv ids (se_beh e)) bs) as Hok.
-  destruct (read_iter maxbuf cfg (ss_st ss1) (mkEnv ids (se_beh e)) bs) as [d st' rest|d|en rest].
+  pose proof (read_iter_ok maxbuf cfg (ss_st ss1) (mkEnv ids (se_beh e) (negb (close_wait_only_if_sent fl) || ss_sent_close ss1)) bs) as Hok.
+  destruct (read_iter maxbuf cfg (ss_st ss1) (mkEnv ids (se_beh e) (negb (close_wait_only_if_sent fl) || ss_sent_close ss1)) bs) as [d st' rest|d|en rest].
   - destruct Hok as [h Hd].
     assert (Hh : d_hdr d = h) by apply Hd.
     destruct (d_reply d) as [[pl| |]|] eqn:Hr.
@@ -221,7 +221,7 @@ Lemma step_next_shorter : forall ss e bs r ss' rest,
 Proof.
   intros ss e bs r ss' rest. unfold session_step.
   destruct (do_register ss e) as [ss1 ids].
-  destruct (read_iter maxbuf cfg (ss_st ss1) (mkEnv ids (se_beh e)) bs) as [d st' rest0|d|en rest0] eqn:Hit;
+  destruct (read_iter maxbuf cfg (ss_st ss1) (mkEnv ids (se_beh e) (negb (close_wait_only_if_sent fl) || ss_sent_close ss1)) bs) as [d st' rest0|d|en rest0] eqn:Hit;
     try discriminate.
   apply read_iter_next_shorter in Hit.
   assert (Hac : forall ss2 rec, after_consumer ss2 rec rest0 = SsNext r ss' rest -> rest = rest0).
@@ -296,7 +296,7 @@ Lemma step_stop_cases : forall ss e bs l en,
 Proof.
   intros ss e bs l en. unfold session_step.
   destruct (do_register ss e) as [ss1 ids]. cbn [fst].
-  destruct (read_iter maxbuf cfg (ss_st ss1) (mkEnv ids (se_beh e)) bs) as [d st' rest|d|en0 rest] eqn:Hit.
+  destruct (read_iter maxbuf cfg (ss_st ss1) (mkEnv ids (se_beh e) (negb (close_wait_only_if_sent fl) || ss_sent_close ss1)) bs) as [d st' rest|d|en0 rest] eqn:Hit.
   - assert (Hac : forall ss2 rec, after_consumer ss2 rec rest = SsStop l en ->
         exists rec0, l = [rec0] /\
          ((en = SeErr /\ (sr_cons rec0 = CoGsv OErr \/ sr_cons rec0 = CoSpv OErr)) \/
@@ -560,7 +560,7 @@ Proof.
   intros ss e bs r ss' rest Hinv. unfold session_step.
   destruct (do_register ss e) as [ss1 ids] eqn:Hreg.
   pose proof (do_register_inv _ _ _ _ Hinv Hreg) as H1. clear Hinv Hreg.
-  destruct (read_iter maxbuf cfg (ss_st ss1) (mkEnv ids (se_beh e)) bs) as [d st' rest0|d|en rest0];
+  destruct (read_iter maxbuf cfg (ss_st ss1) (mkEnv ids (se_beh e) (negb (close_wait_only_if_sent fl) || ss_sent_close ss1)) bs) as [d st' rest0|d|en rest0];
     try discriminate.
   assert (Hkeep : phase_inv (with_st ss1 st')) by (unfold phase_inv, with_st in *; cbn; exact H1).
   assert (Hmain : forall rr, d_reply d = Some rr -> (rr = RHeaderOnly \/ exists pl, rr = RBuffered pl) ->
@@ -701,7 +701,7 @@ Proof.
   revert Hs. unfold session_step.
   destruct (do_register ss e) as [ss1 ids] eqn:Hreg.
   pose proof (do_register_quiet _ _ _ _ Hns Hq Hreg) as [_ [Hsc Hcons]].
-  destruct (read_iter maxbuf cfg (ss_st ss1) (mkEnv ids (se_beh e)) bs) as [d st' rest0|d|en rest0];
+  destruct (read_iter maxbuf cfg (ss_st ss1) (mkEnv ids (se_beh e) (negb (close_wait_only_if_sent fl) || ss_sent_close ss1)) bs) as [d st' rest0|d|en rest0];
     try discriminate.
   assert (Hmain : forall k rr,
      (let ss3 := mkSS (ss_st (with_st ss1 st')) (ss_neg (with_st ss1 st')) (ss_next (with_st ss1 st'))
@@ -726,7 +726,7 @@ Lemma step_closed_needs_shutdown : forall ss e bs l,
 Proof.
   intros ss e bs l. unfold session_step.
   destruct (do_register ss e) as [ss1 ids]. cbn [fst].
-  destruct (read_iter maxbuf cfg (ss_st ss1) (mkEnv ids (se_beh e)) bs) as [d st' rest0|d|en rest0].
+  destruct (read_iter maxbuf cfg (ss_st ss1) (mkEnv ids (se_beh e) (negb (close_wait_only_if_sent fl) || ss_sent_close ss1)) bs) as [d st' rest0|d|en rest0].
   - assert (Hmain : forall rr,
      (let k := lookup_cons (h_id (d_hdr d)) (ss_cons (with_st ss1 st')) in
       let ss3 := mkSS (ss_st (with_st ss1 st')) (ss_neg (with_st ss1 st')) (ss_next (with_st ss1 st'))
